@@ -340,3 +340,25 @@ Theorem C06_history_monitor_set_extensions_constructors : forall ops state op n 
     (steps_of ops (fst (run_wops ops w))) (dest_log (w_dest (snd (run_wops ops w)))) = true.
 Proof. exact constructors_c06_segments. Qed.
 Print Assumptions C06_history_monitor_set_extensions_constructors.
+(* Tie C4 (source level): the leaf accessors of wsutil.Writer translated from the Go SOURCE on this run by
+   translator v3 extended to structs that hold slices (gen/Translated3.v; the record carries the slice fields
+   raw and buf as (array, offset, len, cap) values).  For every record whose len(buf) and n are the model's
+   (writer_counts), in every world: Size, Available, Buffered return the model's w_buflen, w_available, w_n; the
+   receiver and the world are unchanged; no panic (the subtraction cannot wrap).  The methods that move bytes
+   (flushFragment, Flush, FlushFragment, Write) are NOT translated: they need interface method calls, calls across
+   packages and a local struct passed as io.Writer. *)
+Require GoSlices GoMem Translated3 Translated4Writer.
+Theorem C06_source_accessors : forall c m w, Translated4Writer.writer_counts c m ->
+  Translated3.g3_wsutil_Writer_Size c w = GoSlices.Ok ((Z.of_N (w_buflen m), c), w)
+  /\ Translated3.g3_wsutil_Writer_Available c w = GoSlices.Ok ((Z.of_N (w_available m), c), w)
+  /\ Translated3.g3_wsutil_Writer_Buffered c w = GoSlices.Ok ((Z.of_N (w_n m), c), w).
+Proof. exact Translated4Writer.g3_Writer_accessors_ok. Qed.
+Print Assumptions C06_source_accessors.
+
+Example C06_source_accessors_nonvacuous :
+  let wr : GoMem.g_writer Translated3.g_error := fun _ bs => (GoSlices.go_len bs, None) in
+  let c := Translated3.g3_mk_wsutil_Writer wr false (GoMem.mk_slice 0 0 16 16) (GoMem.mk_slice 0 6 10 10) 3%Z true 0%Z None in
+  let w := GoMem.mk_world [repeat 0%Z 16] [] in
+  Translated3.g3_wsutil_Writer_Available c w = GoSlices.Ok ((7%Z, c), w)
+  /\ Translated3.g3_wsutil_Writer_Size c w = GoSlices.Ok ((10%Z, c), w).
+Proof. vm_compute. split; reflexivity. Qed.
